@@ -335,7 +335,8 @@ Record pinv (Q : nat -> Prop) (X A F : list nat) (p : plan) : Prop := {
             p_use p q = depth g q;
   pi_pool0 : forall e, In e (p_delayed p) -> 0 < depth g (pool g e);
   pi_wanted : p_wanted p = count_if (is_wanted (p_want p)) (all_edges g);
-  pi_tokens : p_tokens p = match c_jobserver cfg with None => 0 | Some _ => length A end }.
+  pi_tokens : p_tokens p = match c_jobserver cfg with None => 0 | Some _ => length A end;
+  pi_sched_f : forall e, In e (sched p A F) -> p_want p e = Some WToFinish }.
 
 Definition QT : nat -> Prop := fun _ => True.
 
@@ -344,7 +345,7 @@ Lemma pinv_weaken (Q Q' : nat -> Prop) X X' A F p :
   (forall x, In x X' -> In x X \/ ~ In x (sched p A F) \/ p_want p x = Some WToFinish) ->
   pinv Q X A F p -> pinv Q' X' A F p.
 Proof.
-  intros HQ HX HX' [I1 I2 I3 I4 I5 I6 I7 I8 I9 I10 I11 I12 I13 I14 I15].
+  intros HQ HX HX' [I1 I2 I3 I4 I5 I6 I7 I8 I9 I10 I11 I12 I13 I14 I15 I16].
   constructor; try assumption.
   - intros e H1 H2. destruct (I4 e H1 H2) as [H|H]; [left; exact H|right; apply HX; exact H].
   - intros e H1 H2. apply HX. apply (I5 e H1 H2).
@@ -359,7 +360,7 @@ Lemma pinv_drop (Q : nat -> Prop) d X A F p :
   (p_want p d = Some WNothing -> all_inputs_ready g p d = true -> In d X) ->
   pinv Q X A F p.
 Proof.
-  intros [I1 I2 I3 I4 I5 I6 I7 I8 I9 I10 I11 I12 I13 I14 I15] H1 H2.
+  intros [I1 I2 I3 I4 I5 I6 I7 I8 I9 I10 I11 I12 I13 I14 I15 I16] H1 H2.
   constructor; try assumption.
   - intros e He Ha. destruct (I4 e He Ha) as [H|[<-|H]]; [left; exact H|apply H1; assumption|right; exact H].
   - intros e He Ha. destruct (I5 e He Ha) as [<-|H]; [apply H2; assumption|exact H].
@@ -378,7 +379,7 @@ Qed.
 Lemma retrieve_pinv (Q : nat -> Prop) X A F p prio q :
   pinv Q X A F p -> pinv (fun r => Q r \/ r = q) X A F (retrieve g prio q p).
 Proof.
-  intros [I1 I2 I3 I4 I5 I6 I7 I8 I9 I10 I11 I12 I13 I14 I15].
+  intros [I1 I2 I3 I4 I5 I6 I7 I8 I9 I10 I11 I12 I13 I14 I15 I16].
   assert (HndD : NoDup (p_delayed p)).
   { unfold sched in I1. apply NoDup_app_iff in I1. destruct I1 as [_ [I1 _]].
     apply NoDup_app_iff in I1. tauto. }
@@ -427,6 +428,7 @@ Proof.
   - intros e He. apply I13. apply HinD. exact He.
   - rewrite R9, R7. exact I14.
   - rewrite R11. exact I15.
+  - intros e He. rewrite R7. apply I16. apply (Permutation_in _ Hperm). exact He.
 Qed.
 
 Lemma retrieve_as_frame prio q p :
@@ -485,7 +487,7 @@ Lemma pinv_schedule_pure (Q : nat -> Prop) X A F p d (to_ready : bool) :
                (if to_ready then p_delayed p else d :: p_delayed p)
                (p_use p) (p_wanted p) (p_commands p) (p_oready p) (p_tokens p)).
 Proof.
-  intros [I1 I2 I3 I4 I5 I6 I7 I8 I9 I10 I11 I12 I13 I14 I15] Hw Ha Hdep.
+  intros [I1 I2 I3 I4 I5 I6 I7 I8 I9 I10 I11 I12 I13 I14 I15 I16] Hw Ha Hdep.
   assert (Hns : ~ In d (sched p A F)).
   { intros Hin. rewrite (I6 d (or_introl eq_refl) Hin) in Hw. discriminate. }
   set (p' := mkPlan _ _ _ _ _ _ _ _).
@@ -541,6 +543,8 @@ Proof.
   - unfold p'. psimpl. rewrite I14. symmetry. apply is_wanted_upd_keep.
     unfold is_wanted. rewrite upd_same, Hw. reflexivity.
   - exact I15.
+  - intros e He. destruct (Nat.eq_dec e d) as [->|Hne]; [exact Hwd|]. rewrite Hwant by exact Hne.
+    apply I16. apply Hin' in He. destruct He as [He|He]; [congruence|exact He].
 Qed.
 
 (* ---- pure update 2: moving edges between ready_, the active set and the failed set ---- *)
@@ -552,7 +556,7 @@ Lemma pinv_reshape (Q Q' : nat -> Prop) X A F A' F' R' u t p :
   t = tok A' ->
   pinv Q' X A' F' (mkPlan (p_want p) R' (p_delayed p) u (p_wanted p) (p_commands p) (p_oready p) t).
 Proof.
-  intros [I1 I2 I3 I4 I5 I6 I7 I8 I9 I10 I11 I12 I13 I14 I15] Hperm Hu Hfull Ht.
+  intros [I1 I2 I3 I4 I5 I6 I7 I8 I9 I10 I11 I12 I13 I14 I15 I16] Hperm Hu Hfull Ht.
   set (p' := mkPlan _ _ _ _ _ _ _ _).
   assert (Hperm' : Permutation (sched p' A' F') (sched p A F)) by exact Hperm.
   assert (Hair : forall e, all_inputs_ready g p' e = all_inputs_ready g p e) by reflexivity.
@@ -563,6 +567,7 @@ Proof.
   - intros e He Ha. destruct (I4 e He Ha) as [H|H]; [left|right; exact H].
     apply (Permutation_in _ (Permutation_sym Hperm')). exact H.
   - intros x Hx Hs. apply I6; [exact Hx|]. apply (Permutation_in _ Hperm'). exact Hs.
+  - intros e He. apply I16. apply (Permutation_in _ Hperm'). exact He.
 Qed.
 
 (* ---- pure update 3: an edge is done: erased from want_, outputs_ready_ set ---- *)
@@ -579,7 +584,7 @@ Lemma pinv_done_pure (Q' : nat -> Prop) Xo X A A' F p e w u n t :
        (mkPlan (upd (p_want p) e None) (p_ready p) (p_delayed p) u n (p_commands p)
                (upd (p_oready p) e true) t).
 Proof.
-  intros [I1 I2 I3 I4 I5 I6 I7 I8 I9 I10 I11 I12 I13 I14 I15] Hw Ha HX HX' Hnd Hin Hu Hfull Hn Ht.
+  intros [I1 I2 I3 I4 I5 I6 I7 I8 I9 I10 I11 I12 I13 I14 I15 I16] Hw Ha HX HX' Hnd Hin Hu Hfull Hn Ht.
   set (p' := mkPlan _ _ _ _ _ _ _ _).
   assert (Hoe : p_oready p e = false).
   { destruct (p_oready p e) eqn:E; [|reflexivity]. rewrite (I7 e E) in Hw. discriminate. }
@@ -633,6 +638,7 @@ Proof.
   - exact I13.
   - exact Hn.
   - exact Ht.
+  - intros x Hx. apply Hs' in Hx. destruct Hx as [Hx Hne]. rewrite Hwant by exact Hne. apply I16. exact Hx.
 Qed.
 
 
@@ -819,7 +825,7 @@ Proof.
   refine (Hfold prio (cons_of g d) X A F _ p' _ Hef).
   apply (QT_weaken (fun r => QT r \/ r = pool g d)); [intros q _; left; exact I|].
   apply retrieve_pinv.
-  pose proof HI as [I1 I2 I3 I4 I5 I6 I7 I8 I9 I10 I11 I12 I13 I14 I15].
+  pose proof HI as [I1 I2 I3 I4 I5 I6 I7 I8 I9 I10 I11 I12 I13 I14 I15 I16].
   assert (Hns : ~ In d (sched p A F)).
   { intros Hin. destruct (I2 d Hin) as [H _]. unfold is_wanted in H. rewrite Hw in H. discriminate. }
   apply (pinv_done_pure QT (d :: X) X A A F p d WNothing); try assumption.
@@ -848,7 +854,7 @@ Qed.
 
 Lemma pinv_nodup_A Q X A F p : pinv Q X A F p -> NoDup A.
 Proof.
-  intros [I1 _ _ _ _ _ _ _ _ _ _ _ _ _ _]. unfold sched in I1.
+  intros [I1 _ _ _ _ _ _ _ _ _ _ _ _ _ _ _]. unfold sched in I1.
   apply NoDup_app_iff in I1. destruct I1 as [_ [I1 _]].
   apply NoDup_app_iff in I1. destruct I1 as [_ [I1 _]].
   apply NoDup_app_iff in I1. tauto.
@@ -856,7 +862,7 @@ Qed.
 
 Lemma pinv_nodup_R Q X A F p : pinv Q X A F p -> NoDup (p_ready p).
 Proof.
-  intros [I1 _ _ _ _ _ _ _ _ _ _ _ _ _ _]. unfold sched in I1.
+  intros [I1 _ _ _ _ _ _ _ _ _ _ _ _ _ _ _]. unfold sched in I1.
   apply NoDup_app_iff in I1. tauto.
 Qed.
 
@@ -895,7 +901,7 @@ Lemma use_after_release p A F e u :
   (forall q, q <> pool g e -> 0 < depth g q -> delayed_of g q (p_delayed p) <> [] -> u q = depth g q).
 Proof.
   intros HI Hin Hu. pose proof (pinv_nodup_A _ _ _ _ _ HI) as HndA.
-  destruct HI as [I1 I2 I3 I4 I5 I6 I7 I8 I9 I10 I11 I12 I13 I14 I15].
+  destruct HI as [I1 I2 I3 I4 I5 I6 I7 I8 I9 I10 I11 I12 I13 I14 I15 I16].
   destruct (rel_use_spec p (pool g e) u Hu) as [U1 [U2 U3]].
   split.
   - intros q Hq. destruct (I11 q Hq) as [H1 H2]. pose proof (cnt_rem g q e A HndA Hin) as Hc.
@@ -911,7 +917,7 @@ Lemma ef_top_success fuel prio e A F p p' :
 Proof.
   intros HI Hin Hef. destruct fuel as [|fuel]; [discriminate Hef|].
   pose proof (pinv_nodup_A _ _ _ _ _ HI) as HndA.
-  pose proof HI as [I1 I2 I3 I4 I5 I6 I7 I8 I9 I10 I11 I12 I13 I14 I15].
+  pose proof HI as [I1 I2 I3 I4 I5 I6 I7 I8 I9 I10 I11 I12 I13 I14 I15 I16].
   destruct (I2 e (in_sched_A p A F e Hin)) as [Hw Ha]. unfold is_wanted in Hw.
   destruct (p_want p e) as [w|] eqn:Ew; [|discriminate].
   assert (Hwn : w <> WNothing) by (intros ->; discriminate).
@@ -949,7 +955,7 @@ Lemma ef_top_failure fuel prio e A F p p' :
 Proof.
   intros HI Hin Hef. destruct fuel as [|fuel]; [discriminate Hef|].
   pose proof (pinv_nodup_A _ _ _ _ _ HI) as HndA.
-  pose proof HI as [I1 I2 I3 I4 I5 I6 I7 I8 I9 I10 I11 I12 I13 I14 I15].
+  pose proof HI as [I1 I2 I3 I4 I5 I6 I7 I8 I9 I10 I11 I12 I13 I14 I15 I16].
   destruct (I2 e (in_sched_A p A F e Hin)) as [Hw Ha]. unfold is_wanted in Hw.
   destruct (p_want p e) as [w|] eqn:Ew; [|discriminate].
   assert (Hwn : w <> WNothing) by (intros ->; discriminate).
@@ -971,41 +977,6 @@ Proof.
 Qed.
 
 (* ------------------------------------------------------------------ Plan::ScheduleInitialEdges *)
-(* DelayEdge without ScheduleWork: the edge sits in delayed_ with want_ still kWantToStart *)
-Lemma pinv_delay_pure (Q : nat -> Prop) X A F p d :
-  pinv Q (d :: X) A F p -> p_want p d = Some WToStart -> all_inputs_ready g p d = true ->
-  ~ In d X -> 0 < depth g (pool g d) ->
-  pinv (fun r => Q r /\ r <> pool g d) X A F (set_delayed p (d :: p_delayed p)).
-Proof.
-  intros [I1 I2 I3 I4 I5 I6 I7 I8 I9 I10 I11 I12 I13 I14 I15] Hw Ha HnX Hdep.
-  assert (Hns : ~ In d (sched p A F)).
-  { intros Hin. rewrite (I6 d (or_introl eq_refl) Hin) in Hw. discriminate. }
-  set (p' := set_delayed p (d :: p_delayed p)).
-  assert (Hperm : Permutation (sched p' A F) (d :: sched p A F)).
-  { unfold sched, p'. psimpl. cbn [app]. symmetry. apply Permutation_middle. }
-  assert (Hin' : forall x, In x (sched p' A F) <-> x = d \/ In x (sched p A F)).
-  { intros x. split; intros H.
-    - apply (Permutation_in _ Hperm) in H. destruct H as [<-|H]; [left; reflexivity|right; exact H].
-    - apply (Permutation_in _ (Permutation_sym Hperm)). destruct H as [->|H]; [left; reflexivity|right; exact H]. }
-  constructor; try assumption.
-  - apply (Permutation_NoDup (Permutation_sym Hperm)). constructor; assumption.
-  - intros e He. apply Hin' in He. destruct He as [->|He]; [|apply I2; exact He].
-    split; [unfold is_wanted; change (p_want p' d) with (p_want p d); rewrite Hw; reflexivity|exact Ha].
-  - intros e He. apply Hin'. right. apply I3. exact He.
-  - intros e He Hae. destruct (I4 e He Hae) as [H|[H|H]].
-    + left. apply Hin'. right. exact H.
-    + left. apply Hin'. left. symmetry. exact H.
-    + right. exact H.
-  - intros e He Hae. destruct (I5 e He Hae) as [H|H]; [|exact H].
-    subst e. change (p_want p' d) with (p_want p d) in He. congruence.
-  - intros x Hx Hs. apply Hin' in Hs. destruct Hs as [->|Hs]; [contradiction|].
-    apply I6; [right; exact Hx|exact Hs].
-  - intros q [HQq Hq] Hdq Hdl. unfold p' in *. psimpl. apply I12; [exact HQq|exact Hdq|].
-    unfold delayed_of in *. cbn [filter] in Hdl.
-    destruct (Nat.eqb_spec (pool g d) q) as [E|E]; [congruence|exact Hdl].
-  - intros e He. unfold p' in He. psimpl. destruct He as [<-|He]; [exact Hdep|apply I13; exact He].
-Qed.
-
 Record wf_snap (sn : snapshot) : Prop := {
   ws_oready_none : forall e, sn_oready sn e = true -> sn_want sn e = None;
   ws_oready_closed : forall e, sn_oready sn e = true -> forallb (sn_oready sn) (ins g e) = true;
@@ -1041,15 +1012,15 @@ Proof.
   - intros e [].
   - exact W7.
   - destruct (c_jobserver cfg); reflexivity.
+  - intros e [].
 Qed.
 
 Lemma sched_init_edge_want_none e p x : p_want (sched_init_edge g e p) x = None <-> p_want p x = None.
 Proof.
   unfold sched_init_edge. destruct (p_want p e) as [[| |]|] eqn:Ew; try reflexivity.
   destruct (all_inputs_ready g p e); [|reflexivity].
-  destruct (Nat.eqb (depth g (pool g e)) 0); psimpl; [|reflexivity].
-  unfold upd. destruct (Nat.eqb_spec x e) as [->|Hne]; [|reflexivity].
-  rewrite Ew. split; discriminate.
+  destruct (Nat.eqb (depth g (pool g e)) 0); psimpl;
+    (unfold upd; destruct (Nat.eqb_spec x e) as [->|Hne]; [|reflexivity]; rewrite Ew; split; discriminate).
 Qed.
 
 Lemma sched_init_fold sn : wf_snap sn -> forall l1 l2, all_edges g = l1 ++ l2 ->
@@ -1090,12 +1061,16 @@ Proof.
            split; [exact Hcmd|]. intros x. rewrite <- Hisw. unfold is_wanted. psimpl. unfold upd.
            destruct (Nat.eqb_spec x e) as [->|Hne]; [rewrite Ew; reflexivity|reflexivity].
         -- assert (Hpos : 0 < depth g (pool g e)) by lia.
-           pose proof (pinv_delay_pure QF l2 [] [] p e HI Ew Ea He2 Hpos) as H.
+           pose proof (pinv_schedule_pure QF l2 [] [] p e false HI Ew Ea Hpos) as H.
            split; [eapply pinv_weaken; [| |left; eassumption|exact H]; [intros q []|intros x Hx; exact Hx]|].
            split.
            { apply Hsub'. intros x Hx. unfold sched in *. psimpl. cbn [app] in *. rewrite app_nil_r in *.
              apply in_app_or in Hx. destruct Hx as [Hx|[<-|Hx]]; [right; apply in_or_app; left; exact Hx|left; reflexivity|right; apply in_or_app; right; exact Hx]. }
-           split; [exact Hnb|split; assumption].
+           split.
+           { intros x Hx. psimpl. unfold upd in Hx. destruct (Nat.eqb_spec x e) as [Heq|Hne]; [discriminate Hx|].
+             apply Hnb. exact Hx. }
+           split; [exact Hcmd|]. intros x. rewrite <- Hisw. unfold is_wanted. psimpl. unfold upd.
+           destruct (Nat.eqb_spec x e) as [->|Hne]; [rewrite Ew; reflexivity|reflexivity].
       * split; [apply (pinv_drop _ e); [exact HI| |]; intros H1 H2; congruence|].
         split; [intros x Hx; apply in_or_app; left; apply Hsub; exact Hx|]. split; [exact Hnb|split; assumption].
     + split; [apply (pinv_drop _ e); [exact HI| |]; intros H1 H2; congruence|].
@@ -1354,7 +1329,7 @@ Lemma start_pop_pinv p U F e : pinv QT [] U F p -> In e (p_ready p) ->
      end).
 Proof.
   intros HI Hin. pose proof (pinv_nodup_R _ _ _ _ _ HI) as HndR.
-  pose proof HI as [I1 I2 I3 I4 I5 I6 I7 I8 I9 I10 I11 I12 I13 I14 I15].
+  pose proof HI as [I1 I2 I3 I4 I5 I6 I7 I8 I9 I10 I11 I12 I13 I14 I15 I16].
   assert (H : forall t, t = tok (e :: U) ->
     pinv QT [] (e :: U) F (mkPlan (p_want p) (rem e (p_ready p)) (p_delayed p) (p_use p) (p_wanted p)
                                   (p_commands p) (p_oready p) t)).
@@ -1372,15 +1347,16 @@ Proof.
 Qed.
 
 Lemma pinv_set_commands (Q : nat -> Prop) X A F p c : pinv Q X A F p -> pinv Q X A F (set_commands p c).
-Proof. intros [I1 I2 I3 I4 I5 I6 I7 I8 I9 I10 I11 I12 I13 I14 I15]. constructor; assumption. Qed.
+Proof. intros [I1 I2 I3 I4 I5 I6 I7 I8 I9 I10 I11 I12 I13 I14 I15 I16]. constructor; assumption. Qed.
 
 (* CleanNode: kWantToStart -> kWantNothing *)
 Lemma pinv_prune_pure A F p e w :
-  pinv QT [] A F p -> p_want p e = Some WToStart -> ~ In e (sched p A F) ->
+  pinv QT [] A F p -> p_want p e = Some WToStart ->
   all_inputs_ready g p e = false -> p_wanted p = S w ->
   pinv QT [] A F (set_wanted (set_want p (upd (p_want p) e (Some WNothing))) w).
 Proof.
-  intros [I1 I2 I3 I4 I5 I6 I7 I8 I9 I10 I11 I12 I13 I14 I15] Hw Hns Ha Hwd.
+  intros [I1 I2 I3 I4 I5 I6 I7 I8 I9 I10 I11 I12 I13 I14 I15 I16] Hw Ha Hwd.
+  assert (Hns : ~ In e (sched p A F)) by (intros Hin; rewrite (I16 e Hin) in Hw; discriminate).
   set (p' := set_wanted _ _).
   assert (Hwant : forall x, x <> e -> p_want p' x = p_want p x) by (intros x Hx; unfold p'; psimpl; apply upd_other; exact Hx).
   assert (Hwe : p_want p' e = Some WNothing) by (unfold p'; psimpl; apply upd_same).
@@ -1406,6 +1382,7 @@ Proof.
     pose proof (count_if_flip (p_want p) e (Some WNothing) (all_edges g) all_edges_nodup (all_edges_in e Hlt)) as Hc.
     unfold is_wanted in Hc at 1 2. rewrite Hw, upd_same in Hc. specialize (Hc eq_refl eq_refl).
     rewrite <- I14, Hwd in Hc. injection Hc as Hc. exact Hc.
+  - intros x Hx. rewrite Hwant; [apply I16; exact Hx|]. intros ->. exact (Hns Hx).
 Qed.
 
 Lemma npw_evolf w o c p' : evolf w o c p' -> npw p' = npwf w.
@@ -1500,12 +1477,12 @@ Proof.
   intros C Hst. cbn [step_res] in Hst.
   destruct (in_build s && s_waiting s
             && match p_want (s_plan s) e with Some WToStart => true | _ => false end
-            && negb (memb e (scheduled s)) && negb (all_inputs_ready g (s_plan s) e)) eqn:G; [|discriminate].
-  peel G G2. peel G G1. peel G Gw. peel G Gwait.
-  apply in_build_true in G. apply negb_true_iff in G2, G1. apply memb_false in G1.
+            && negb (all_inputs_ready g (s_plan s) e)) eqn:G; [|discriminate].
+  peel G G2. peel G Gw. peel G Gwait.
+  apply in_build_true in G. apply negb_true_iff in G2.
   destruct (p_want (s_plan s) e) as [[| |]|] eqn:Ew; try discriminate.
   destruct (p_wanted (s_plan s)) as [|w] eqn:Ewd; [discriminate|].
-  pose proof (pinv_prune_pure _ _ _ e w (co_pinv s C) Ew G1 G2 Ewd) as HP.
+  pose proof (pinv_prune_pure _ _ _ e w (co_pinv s C) Ew G2 Ewd) as HP.
   set (p1 := set_wanted _ w) in *.
   assert (Hlt : e < n_edges g) by (apply (pi_range _ _ _ _ _ (co_pinv s C)); congruence).
   assert (Hnpw : npw (s_plan s) = (if phony g e then 0 else 1) + npw p1).
@@ -2059,7 +2036,7 @@ Qed.
 
 Lemma idle_no_want p : pinv QT [] [] [] p -> p_ready p = [] -> forall e, p_want p e = None.
 Proof.
-  intros [I1 I2 I3 I4 I5 I6 I7 I8 I9 I10 I11 I12 I13 I14 I15] HR.
+  intros [I1 I2 I3 I4 I5 I6 I7 I8 I9 I10 I11 I12 I13 I14 I15 I16] HR.
   assert (HD0 : forall d, ~ In d (p_delayed p)).
   { intros d Hd.
     pose proof (I13 d Hd) as Hdep. destruct (I11 _ Hdep) as [Hu _].
@@ -2338,4 +2315,613 @@ Proof.
   - unfold step in Hst. cbn [step_res] in Hst. rewrite Eph in Hst. discriminate.
 Qed.
 
+(* ------------------------------------------------------------------ fuel is sufficient; Finish is enabled *)
+Definition in_want (p : plan) (e : nat) : bool := match p_want p e with None => false | Some _ => true end.
+Definition cw (p : plan) : nat := count_if (in_want p) (all_edges g).
+Definition wrange (p : plan) : Prop := forall e, p_want p e <> None -> e < n_edges g.
+
+Lemma count_le (f f' : nat -> bool) l : (forall x, f' x = true -> f x = true) -> count_if f' l <= count_if f l.
+Proof.
+  intros H. unfold count_if. induction l as [|x l IH]; cbn [filter]; [lia|].
+  destruct (f' x) eqn:E'; [rewrite (H x E'); cbn [length]; lia|].
+  destruct (f x); cbn [length]; lia.
+Qed.
+
+Lemma evolf_sub w o c p' : evolf w o c p' -> forall x, p_want p' x <> None -> w x <> None.
+Proof.
+  intros [A1 _ _ _] x Hx. destruct (A1 x) as [Ha|[[Ha1 Ha2]|[Ha1 [Ha2 _]]]]; congruence.
+Qed.
+
+Lemma evol_cw p p' : evol p p' -> wrange p -> cw p' <= cw p /\ wrange p'.
+Proof.
+  intros He Hr. split.
+  - unfold cw. apply count_le. intros x Hx. unfold in_want in *.
+    pose proof (evolf_sub _ _ _ _ He x) as H. destruct (p_want p' x); [|discriminate].
+    destruct (p_want p x); [reflexivity|]. exfalso. apply H; [discriminate|reflexivity].
+  - intros x Hx. apply Hr. apply (evolf_sub _ _ _ _ He x Hx).
+Qed.
+
+Lemma cw_erase p d R D u n c o t : wrange p -> p_want p d <> None ->
+  cw p = S (cw (mkPlan (upd (p_want p) d None) R D u n c o t)) /\
+  wrange (mkPlan (upd (p_want p) d None) R D u n c o t).
+Proof.
+  intros Hr Hd. split.
+  - unfold cw. apply (count_flip _ _ d); [apply all_edges_nodup|apply all_edges_in; apply Hr; exact Hd| | |].
+    + unfold in_want. destruct (p_want p d); [reflexivity|congruence].
+    + unfold in_want. psimpl. rewrite upd_same. reflexivity.
+    + intros x Hx. unfold in_want. psimpl. rewrite upd_other by exact Hx. reflexivity.
+  - intros x Hx. psimpl. apply Hr. unfold upd in Hx. destruct (Nat.eqb x d); [congruence|exact Hx].
+Qed.
+
+Lemma retrieve_cw prio q p : cw (retrieve g prio q p) = cw p /\ (wrange p -> wrange (retrieve g prio q p)).
+Proof.
+  split.
+  - unfold cw, in_want. rewrite retrieve_want. reflexivity.
+  - intros H x. rewrite retrieve_want. apply H.
+Qed.
+
+Lemma schedule_work_not_fuel prio d p : schedule_work g prio d p <> OutOfFuel.
+Proof.
+  unfold schedule_work. destruct (p_want p d) as [[| |]|]; try discriminate.
+  destruct (Nat.eqb (depth g (pool g d)) 0); discriminate.
+Qed.
+
+Definition fuel_rec (fuel : nat) : Prop :=
+  forall prio d p, wrange p -> p_want p d = Some WNothing -> cw p < fuel ->
+    edge_finished fuel g cfg prio d true false p <> OutOfFuel.
+Definition fuel_fold (fuel : nat) : Prop :=
+  forall prio l p, wrange p -> cw p < fuel -> fold_res (visit fuel prio) l p <> OutOfFuel.
+
+Lemma fuel_fold_of_rec fuel : fuel_rec fuel -> fuel_fold fuel.
+Proof.
+  intros Hrec prio l. induction l as [|d l IH]; intros p Hr Hc; cbn [fold_res]; [discriminate|].
+  destruct (visit fuel prio d p) as [p1| |] eqn:Ev; [|discriminate|].
+  - assert (He : evol p p1).
+    { unfold visit in Ev. destruct (p_want p d) as [wd|] eqn:Ewd; [|injection Ev as <-; apply evol_refl].
+      destruct (all_inputs_ready g p d); [|injection Ev as <-; apply evol_refl].
+      destruct wd; cbn [want_eqb] in Ev.
+      - apply (proj1 (ef_evol_all fuel) prio d p p1 Ewd Ev).
+      - apply (schedule_work_evol prio d p p1 Ev).
+      - apply (schedule_work_evol prio d p p1 Ev). }
+    destruct (evol_cw p p1 He Hr) as [H1 H2]. apply IH; [exact H2|lia].
+  - exfalso. unfold visit in Ev. destruct (p_want p d) as [wd|] eqn:Ewd; [|discriminate].
+    destruct (all_inputs_ready g p d); [|discriminate].
+    destruct wd; cbn [want_eqb] in Ev.
+    + apply (Hrec prio d p Hr Ewd Hc Ev).
+    + apply (schedule_work_not_fuel prio d p Ev).
+    + apply (schedule_work_not_fuel prio d p Ev).
+Qed.
+
+Lemma fuel_all fuel : fuel_rec fuel /\ fuel_fold fuel.
+Proof.
+  induction fuel as [|fuel [IH1 IH2]].
+  - assert (H0 : fuel_rec 0) by (intros prio d p _ _ H; lia). split; [exact H0|apply fuel_fold_of_rec; exact H0].
+  - assert (H1 : fuel_rec (S fuel)).
+    { intros prio d p Hr Hw Hc. rewrite (ef_nothing_eq fuel prio d p Hw).
+      assert (Hd : p_want p d <> None) by congruence.
+      destruct (cw_erase p d (p_ready p) (p_delayed p) (p_use p) (p_wanted p) (p_commands p) (upd (p_oready p) d true) (p_tokens p) Hr Hd) as [E1 E2].
+      destruct (retrieve_cw prio (pool g d) (mkPlan (upd (p_want p) d None) (p_ready p) (p_delayed p) (p_use p) (p_wanted p) (p_commands p) (upd (p_oready p) d true) (p_tokens p))) as [E3 E4].
+      apply IH2; [apply E4; exact E2|lia]. }
+    split; [exact H1|apply fuel_fold_of_rec; exact H1].
+Qed.
+
+Lemma cw_le_n p : cw p <= n_edges g.
+Proof.
+  unfold cw, count_if. pose proof (filter_len_le (in_want p) (all_edges g)) as H.
+  unfold all_edges in H at 2. rewrite seq_length in H. exact H.
+Qed.
+
+Theorem edge_finished_fuel_sufficient prio e succ p w :
+  wrange p -> p_want p e = Some w -> w <> WNothing ->
+  edge_finished (plan_fuel g) g cfg prio e succ true p <> OutOfFuel.
+Proof.
+  intros Hr Hw Hn. unfold plan_fuel. rewrite (ef_top_eq (n_edges g) prio e succ p w Hw Hn).
+  destruct (rel_use p (pool g e)) as [u|]; [|discriminate].
+  destruct (rel_tok p) as [t|]; [|discriminate].
+  destruct (negb succ); [discriminate|].
+  destruct (p_wanted p) as [|n]; [discriminate|].
+  assert (Hd : p_want p e <> None) by congruence.
+  destruct (cw_erase p e (p_ready p) (p_delayed p) u n (p_commands p) (upd (p_oready p) e true) t Hr Hd) as [E1 E2].
+  destruct (retrieve_cw prio (pool g e) (mkPlan (upd (p_want p) e None) (p_ready p) (p_delayed p) u n (p_commands p) (upd (p_oready p) e true) t)) as [E3 E4].
+  apply (proj2 (fuel_all (n_edges g))); [apply E4; exact E2|]. pose proof (cw_le_n p). lia.
+Qed.
+
+(* never Forbidden in the recursion *)
+Lemma schedule_work_not_forbidden prio d p : is_wanted (p_want p) d = true -> schedule_work g prio d p <> Forbidden.
+Proof.
+  unfold schedule_work, is_wanted. destruct (p_want p d) as [[| |]|]; try discriminate.
+  destruct (Nat.eqb (depth g (pool g d)) 0); discriminate.
+Qed.
+
+Lemma forbidden_all fuel :
+  (forall prio d p, p_want p d = Some WNothing -> edge_finished fuel g cfg prio d true false p <> Forbidden) /\
+  (forall prio l p, fold_res (visit fuel prio) l p <> Forbidden).
+Proof.
+  assert (Hfold : forall fuel,
+    (forall prio d p, p_want p d = Some WNothing -> edge_finished fuel g cfg prio d true false p <> Forbidden) ->
+    forall prio l p, fold_res (visit fuel prio) l p <> Forbidden).
+  { intros f Hrec prio l. induction l as [|d l IH]; intros p; cbn [fold_res]; [discriminate|].
+    destruct (visit f prio d p) as [p1| |] eqn:Ev; [apply IH| |discriminate].
+    exfalso. unfold visit in Ev. destruct (p_want p d) as [wd|] eqn:Ewd; [|discriminate].
+    destruct (all_inputs_ready g p d); [|discriminate].
+    destruct wd; cbn [want_eqb] in Ev.
+    - apply (Hrec prio d p Ewd Ev).
+    - apply (schedule_work_not_forbidden prio d p); [unfold is_wanted; rewrite Ewd; reflexivity|exact Ev].
+    - apply (schedule_work_not_forbidden prio d p); [unfold is_wanted; rewrite Ewd; reflexivity|exact Ev]. }
+  induction fuel as [|fuel [IH1 IH2]].
+  - assert (H0 : forall prio d p, p_want p d = Some WNothing -> edge_finished 0 g cfg prio d true false p <> Forbidden) by (intros; discriminate).
+    split; [exact H0|apply Hfold; exact H0].
+  - assert (H1 : forall prio d p, p_want p d = Some WNothing -> edge_finished (S fuel) g cfg prio d true false p <> Forbidden).
+    { intros prio d p Hw. rewrite (ef_nothing_eq fuel prio d p Hw). apply IH2. }
+    split; [exact H1|apply Hfold; exact H1].
+Qed.
+
+Lemma ef_top_ok prio e succ A F p : pinv QT [] A F p -> In e A ->
+  exists p', edge_finished (plan_fuel g) g cfg prio e succ true p = Ok p'.
+Proof.
+  intros HI Hin. pose proof (pinv_nodup_A _ _ _ _ _ HI) as HndA.
+  pose proof HI as [I1 I2 I3 I4 I5 I6 I7 I8 I9 I10 I11 I12 I13 I14 I15 I16].
+  destruct (I2 e (in_sched_A p A F e Hin)) as [Hw Ha]. pose proof Hw as Hiw. unfold is_wanted in Hw.
+  destruct (p_want p e) as [w|] eqn:Ew; [|discriminate].
+  assert (Hwn : w <> WNothing) by (intros ->; discriminate).
+  pose proof (edge_finished_fuel_sufficient prio e succ p w I10 Ew Hwn) as Hfuel.
+  destruct (edge_finished (plan_fuel g) g cfg prio e succ true p) as [p'| |] eqn:E; [exists p'; reflexivity| |congruence].
+  exfalso. unfold plan_fuel in E. rewrite (ef_top_eq (n_edges g) prio e succ p w Ew Hwn) in E.
+  assert (Hu : rel_use p (pool g e) <> None).
+  { unfold rel_use. destruct (Nat.eqb_spec (depth g (pool g e)) 0) as [Hz|Hnz]; cbn [negb]; [discriminate|].
+    assert (Hpos : 0 < depth g (pool g e)) by lia. destruct (I11 _ Hpos) as [Hu _].
+    pose proof (cnt_rem g (pool g e) e A HndA Hin) as Hc. rewrite Nat.eqb_refl in Hc.
+    destruct (p_use p (pool g e)); [lia|discriminate]. }
+  destruct (rel_use p (pool g e)) as [u|]; [|congruence].
+  assert (Ht : rel_tok p <> None).
+  { unfold rel_tok. rewrite I15. rewrite (rem_length e A HndA Hin). destruct (c_jobserver cfg); discriminate. }
+  destruct (rel_tok p) as [t|]; [|congruence].
+  destruct (negb succ); [discriminate|].
+  assert (Hwd : 1 <= p_wanted p).
+  { rewrite I14. apply (count_ge_one _ _ e); [apply all_edges_in; apply I10; congruence|exact Hiw]. }
+  destruct (p_wanted p) as [|n]; [lia|].
+  apply (proj2 (forbidden_all (n_edges g)) _ _ _ E).
+Qed.
+
+(* C05 drain: whatever the budget, a running command can always be waited for and reaped *)
+Theorem wait_enabled s : reachable s -> s_phase s = PhBuild -> s_waiting s = false ->
+  s_running s <> [] -> can_start cfg s = false -> exists s', step g cfg s EvWait = Some s'.
+Proof.
+  intros Hr Hph Hw Hrun Hcs. destruct (reachable_sinv s Hr) as [HC _]. specialize (HC Hph).
+  unfold step. cbn [step_res]. unfold in_build. rewrite Hph, Hw, Hcs. cbn [negb andb].
+  destruct (s_running s) as [|x l] eqn:Er; [congruence|].
+  assert (Hx : In x (s_running s ++ s_failed s)) by (rewrite Er; left; reflexivity).
+  rewrite (more_to_do_of_active s x HC Hx). rewrite (co_pending s HC), Er. cbn [length Nat.ltb Nat.leb andb].
+  eexists. reflexivity.
+Qed.
+
+Theorem finish_enabled s e code prio : reachable s -> s_phase s = PhBuild -> s_waiting s = true ->
+  In e (s_running s) -> code <> exit_interrupted ->
+  exists s', step g cfg s (EvFinish e code prio) = Some s'.
+Proof.
+  intros Hr Hph Hw Hin Hcode. destruct (reachable_sinv s Hr) as [HC _]. specialize (HC Hph).
+  unfold step. cbn [step_res]. unfold in_build. rewrite Hph, Hw. cbn [andb].
+  assert (E1 : memb e (s_running s) = true) by (apply memb_In; exact Hin).
+  assert (E2 : Nat.eqb code exit_interrupted = false) by (apply Nat.eqb_neq; exact Hcode).
+  rewrite E1, E2. cbn [negb andb].
+  pose proof (co_pending s HC) as Hp. destruct (s_running s) as [|x l] eqn:Er; [destruct Hin|].
+  rewrite Hp. cbn [length]. rewrite <- Er in *.
+  destruct (Nat.eqb code 0).
+  - destruct (ef_top_ok prio e true _ _ _ (co_pinv s HC) Hin) as [p' Hp']. rewrite Hp'. eexists. reflexivity.
+  - destruct (ef_top_ok prio e false _ _ _ (co_pinv s HC) Hin) as [p' Hp']. rewrite Hp'. eexists. reflexivity.
+Qed.
+
+Theorem step_res_fuel_sufficient s ev : reachable s -> step_res g cfg s ev <> OutOfFuel.
+Proof.
+  intros Hr. destruct (reachable_sinv s Hr) as [HC _].
+  destruct ev as [e prio| |e|e code prio| |code m]; cbn [step_res].
+  - match goal with |- (if ?X then _ else _) <> _ => destruct X eqn:G; [|discriminate] end.
+    peel G G2. peel G G0. peel G G1. peel G Gfa. peel G Gmore. peel G Gnw.
+    apply in_build_true in G. apply memb_In in G0. specialize (HC G).
+    pose proof (start_pop_pinv (s_plan s) (s_running s) (s_failed s) e (co_pinv s HC) G0) as HP.
+    destruct (phony g e); [|discriminate].
+    match goal with |- match edge_finished _ _ _ _ _ _ _ ?P with _ => _ end <> _ =>
+      destruct (ef_top_ok prio e true _ _ P HP (or_introl eq_refl)) as [p' Hp'] end.
+    rewrite Hp'. discriminate.
+  - match goal with |- (if ?X then _ else _) <> _ => destruct X; discriminate end.
+  - match goal with |- (if ?X then _ else _) <> _ => destruct X; [|discriminate] end.
+    destruct (p_wanted (s_plan s)); [discriminate|]. destruct (phony g e); [discriminate|].
+    destruct (p_commands _); [discriminate|]. destruct (s_total s); discriminate.
+  - match goal with |- (if ?X then _ else _) <> _ => destruct X eqn:G; [|discriminate] end.
+    peel G Gcode. peel G G1. peel G Gwait. apply in_build_true in G. apply memb_In in G1. specialize (HC G).
+    destruct (s_pending s); [discriminate|].
+    destruct (Nat.eqb code 0).
+    + destruct (ef_top_ok prio e true _ _ _ (co_pinv s HC) G1) as [p' Hp']. rewrite Hp'. discriminate.
+    + destruct (ef_top_ok prio e false _ _ _ (co_pinv s HC) G1) as [p' Hp']. rewrite Hp'. discriminate.
+  - match goal with |- (if ?X then _ else _) <> _ => destruct X; discriminate end.
+  - destruct (s_phase s); [|destruct (_ && _); discriminate|discriminate].
+    destruct (s_waiting s); [discriminate|].
+    match goal with |- (match ?X with _ => _ end) <> _ => destruct X as [[c m']|]; [|discriminate] end.
+    destruct (_ && _); discriminate.
+Qed.
+
+(* ------------------------------------------------------------------ C04: where outputs_ready comes from *)
+
+Lemma step_origin s ev s' i : core s -> step g cfg s ev = Some s' ->
+  (p_oready (s_plan s') i = true ->
+     p_oready (s_plan s) i = true \/ (exists pr, ev = EvFinish i 0 pr) \/
+     (exists pr, ev = EvStart i pr /\ phony g i = true) \/ p_want (s_plan s) i = Some WNothing) /\
+  (p_want (s_plan s') i = Some WNothing -> p_want (s_plan s) i = Some WNothing \/ ev = EvPrune i).
+Proof.
+  intros C Hst. unfold step in Hst.
+  destruct (step_res g cfg s ev) as [s1| |] eqn:E; try discriminate. injection Hst as <-.
+  assert (Hevolf : forall w o c p' e, evolf w o c p' -> w = upd (p_want (s_plan s)) e None ->
+            o = upd (p_oready (s_plan s)) e true ->
+            (p_oready p' i = true -> p_oready (s_plan s) i = true \/ i = e \/ p_want (s_plan s) i = Some WNothing) /\
+            (p_want p' i = Some WNothing -> p_want (s_plan s) i = Some WNothing)).
+  { intros w o c p' e Hev -> ->. split.
+    - intros H. destruct (ev_oready _ _ _ _ Hev i H) as [H1|H1]; unfold upd in H1;
+        destruct (Nat.eqb_spec i e) as [->|Hne]; try (right; left; reflexivity); try discriminate.
+      + left. exact H1.
+      + right. right. exact H1.
+    - intros H. destruct (ev_want _ _ _ _ Hev i) as [Ha|[[Ha1 Ha2]|[Ha1 [Ha2 _]]]]; try congruence.
+      rewrite H in Ha. unfold upd in Ha. destruct (Nat.eqb i e); [discriminate|]. symmetry. exact Ha. }
+  assert (Hevol : forall p', evol (s_plan s) p' ->
+            (p_oready p' i = true -> p_oready (s_plan s) i = true \/ p_want (s_plan s) i = Some WNothing) /\
+            (p_want p' i = Some WNothing -> p_want (s_plan s) i = Some WNothing)).
+  { intros p' Hev. split.
+    - intros H. apply (ev_oready _ _ _ _ Hev i H).
+    - intros H. destruct (ev_want _ _ _ _ Hev i) as [Ha|[[Ha1 Ha2]|[Ha1 [Ha2 _]]]]; congruence. }
+  destruct ev as [d prio| |d|d code prio| |code m]; cbn [step_res] in E.
+  - match type of E with (if ?X then _ else _) = _ => destruct X eqn:G; [|discriminate] end.
+    peel G G2. peel G G0. apply memb_In in G0.
+    pose proof (start_pop_pinv (s_plan s) (s_running s) (s_failed s) d (co_pinv s C) G0) as HP.
+    set (p2 := match c_jobserver cfg with
+               | None => set_ready (s_plan s) (rem d (p_ready (s_plan s)))
+               | Some _ => _ end) in *.
+    assert (Hp2o : p_oready p2 = p_oready (s_plan s)) by (unfold p2; destruct (c_jobserver cfg); reflexivity).
+    assert (Hp2w : p_want p2 = p_want (s_plan s)) by (unfold p2; destruct (c_jobserver cfg); reflexivity).
+    destruct (phony g d) eqn:Eph.
+    + destruct (edge_finished (plan_fuel g) g cfg prio d true true p2) as [p3| |] eqn:Eef; try discriminate.
+      injection E as <-. unfold set_plan. cbn [s_plan].
+      destruct (pi_sched _ _ _ _ _ HP d (in_sched_A p2 (d :: s_running s) (s_failed s) d (or_introl eq_refl))) as [Hw _].
+      unfold is_wanted in Hw. destruct (p_want p2 d) as [w|] eqn:Ew; [|discriminate].
+      assert (Hwn : w <> WNothing) by (intros ->; discriminate).
+      pose proof (ef_top_evol _ _ _ true _ _ w Ew Hwn Eef) as Hev. cbn in Hev.
+      rewrite Hp2o, Hp2w in Hev. destruct (Hevolf _ _ _ p3 d Hev eq_refl eq_refl) as [H1 H2].
+      split.
+      * intros H. destruct (H1 H) as [H'|[->|H']]; [left; exact H'| |right; right; right; exact H'].
+        right. right. left. exists prio. split; [reflexivity|exact Eph].
+      * intros H. left. apply H2. exact H.
+    + injection E as <-. cbn [s_plan]. rewrite Hp2o, Hp2w. split; intros H; left; exact H.
+  - match type of E with (if ?X then _ else _) = _ => destruct X; [|discriminate] end.
+    injection E as <-. cbn [s_plan]. split; intros H; left; exact H.
+  - match type of E with (if ?X then _ else _) = _ => destruct X; [|discriminate] end.
+    destruct (p_wanted (s_plan s)) as [|w]; [discriminate|].
+    assert (Hcommon : forall p', p_oready p' = p_oready (s_plan s) ->
+              p_want p' = upd (p_want (s_plan s)) d (Some WNothing) ->
+              (p_oready p' i = true -> p_oready (s_plan s) i = true \/ (exists pr, EvPrune d = EvFinish i 0 pr) \/
+                 (exists pr, EvPrune d = EvStart i pr /\ phony g i = true) \/ p_want (s_plan s) i = Some WNothing) /\
+              (p_want p' i = Some WNothing -> p_want (s_plan s) i = Some WNothing \/ EvPrune d = EvPrune i)).
+    { intros p' Ho Hw'. rewrite Ho, Hw'. split; [intros H; left; exact H|].
+      unfold upd. destruct (Nat.eqb_spec i d) as [->|Hne]; [intros _; right; reflexivity|intros H; left; exact H]. }
+    destruct (phony g d).
+    + injection E as <-. unfold set_plan. cbn [s_plan]. apply Hcommon; reflexivity.
+    + match type of E with (match ?X with _ => _ end) = _ => destruct X; try discriminate end.
+      destruct (s_total s); [discriminate|]. injection E as <-. cbn [s_plan]. apply Hcommon; reflexivity.
+  - match type of E with (if ?X then _ else _) = _ => destruct X eqn:G; [|discriminate] end.
+    peel G Gcode. peel G G1. apply memb_In in G1.
+    destruct (s_pending s); [discriminate|].
+    destruct (pi_sched _ _ _ _ _ (co_pinv s C) d (in_sched_A _ _ _ d G1)) as [Hw _].
+    unfold is_wanted in Hw. destruct (p_want (s_plan s) d) as [w|] eqn:Ew; [|discriminate].
+    assert (Hwn : w <> WNothing) by (intros ->; discriminate).
+    destruct (Nat.eqb_spec code 0) as [Hc|Hc].
+    + destruct (edge_finished (plan_fuel g) g cfg prio d true true (s_plan s)) as [p'| |] eqn:Eef; try discriminate.
+      injection E as <-. cbn [s_plan].
+      pose proof (ef_top_evol _ _ _ true _ _ w Ew Hwn Eef) as Hev. cbn in Hev.
+      destruct (Hevolf _ _ _ p' d Hev eq_refl eq_refl) as [H1 H2]. split.
+      * intros H. destruct (H1 H) as [H'|[->|H']]; [left; exact H'| |right; right; right; exact H'].
+        right. left. exists prio. rewrite Hc. reflexivity.
+      * intros H. left. apply H2. exact H.
+    + destruct (edge_finished (plan_fuel g) g cfg prio d false true (s_plan s)) as [p'| |] eqn:Eef; try discriminate.
+      injection E as <-. cbn [s_plan].
+      pose proof (ef_top_evol _ _ _ false _ _ w Ew Hwn Eef) as Hev. cbn in Hev.
+      destruct (Hevol p' Hev) as [H1 H2]. split.
+      * intros H. destruct (H1 H) as [H'|H']; [left; exact H'|right; right; right; exact H'].
+      * intros H. left. apply H2. exact H.
+  - match type of E with (if ?X then _ else _) = _ => destruct X; [|discriminate] end.
+    injection E as <-. cbn [s_plan]. split; intros H; left; exact H.
+  - destruct (s_phase s).
+    + destruct (s_waiting s); [discriminate|].
+      match type of E with (match ?X with _ => _ end) = _ => destruct X as [[c m']|]; [|discriminate] end.
+      match type of E with (if ?X then _ else _) = _ => destruct X; [|discriminate] end.
+      injection E as <-. cbn [s_plan]. split; intros H; left; exact H.
+    + match type of E with (if ?X then _ else _) = _ => destruct X; [|discriminate] end.
+      injection E as <-. cbn [s_plan]. split; intros H; left; exact H.
+    + discriminate.
+Qed.
+
+Lemma exit_plan_same s c m s' : step g cfg s (EvExit c m) = Some s' -> s_plan s' = s_plan s.
+Proof.
+  unfold step. cbn [step_res]. destruct (s_phase s).
+  - destruct (s_waiting s); [discriminate|].
+    match goal with |- match (match ?X with _ => _ end) with _ => _ end = _ -> _ => destruct X as [[c' m']|]; [|discriminate] end.
+    match goal with |- match (if ?X then _ else _) with _ => _ end = _ -> _ => destruct X; [|discriminate] end.
+    intros H. injection H as <-. reflexivity.
+  - match goal with |- match (if ?X then _ else _) with _ => _ end = _ -> _ => destruct X; [|discriminate] end.
+    intros H. injection H as <-. reflexivity.
+  - discriminate.
+Qed.
+
+Definition fin_ok (evs : list event) (i : nat) : Prop :=
+  (exists pr, In (EvFinish i 0 pr) evs) \/ (exists pr, In (EvStart i pr) evs /\ phony g i = true).
+
+Lemma accepts_origin evs : forall s s' i, sinv s -> accepts g cfg s evs = Some s' ->
+  (p_oready (s_plan s') i = true ->
+     p_oready (s_plan s) i = true \/ fin_ok evs i \/ p_want (s_plan s) i = Some WNothing \/ In (EvPrune i) evs) /\
+  (p_want (s_plan s') i = Some WNothing -> p_want (s_plan s) i = Some WNothing \/ In (EvPrune i) evs).
+Proof.
+  induction evs as [|ev evs IH]; intros s s' i HI Ha; cbn [accepts] in Ha.
+  - injection Ha as <-. split; intros H; left; exact H.
+  - destruct (step g cfg s ev) as [s1|] eqn:E; [|discriminate].
+    destruct (IH s1 s' i (sinv_step s ev s1 HI E) Ha) as [IH1 IH2].
+    assert (Hstep : (p_oready (s_plan s1) i = true ->
+              p_oready (s_plan s) i = true \/ (exists pr, ev = EvFinish i 0 pr) \/
+              (exists pr, ev = EvStart i pr /\ phony g i = true) \/ p_want (s_plan s) i = Some WNothing) /\
+            (p_want (s_plan s1) i = Some WNothing -> p_want (s_plan s) i = Some WNothing \/ ev = EvPrune i)).
+    { destruct ev as [d prio| |d|d code prio| |code m];
+        try (apply (step_origin s _ s1 i); [apply (core_of_step s _ s1 HI E); intros c m; discriminate|exact E]).
+      rewrite (exit_plan_same s code m s1 E). split; intros H; left; exact H. }
+    destruct Hstep as [S1 S2].
+    assert (Hn : p_want (s_plan s1) i = Some WNothing -> p_want (s_plan s) i = Some WNothing \/ In (EvPrune i) (ev :: evs)).
+    { intros H. destruct (S2 H) as [H'|H']; [left; exact H'|right; left; exact H']. }
+    split.
+    + intros H. destruct (IH1 H) as [H1|[[[pr H1]|[pr [H1 H1']]]|[H1|H1]]].
+      * destruct (S1 H1) as [H2|[[pr H2]|[[pr [H2 H2']]|H2]]].
+        -- left. exact H2.
+        -- right. left. left. exists pr. left. exact H2.
+        -- right. left. right. exists pr. split; [left; exact H2|exact H2'].
+        -- right. right. left. exact H2.
+      * right. left. left. exists pr. right. exact H1.
+      * right. left. right. exists pr. split; [right; exact H1|exact H1'].
+      * destruct (Hn H1) as [H2|H2]; [right; right; left; exact H2|right; right; right; exact H2].
+      * right. right. right. right. exact H1.
+    + intros H. destruct (IH2 H) as [H1|H1]; [apply Hn; exact H1|right; right; exact H1].
+Qed.
+
+Lemma sched_init_origin : forall l p,
+  p_oready (fold_left (fun pp e => sched_init_edge g e pp) l p) = p_oready p /\
+  forall i, p_want (fold_left (fun pp e => sched_init_edge g e pp) l p) i = Some WNothing -> p_want p i = Some WNothing.
+Proof.
+  induction l as [|e l IH]; intros p; cbn [fold_left]; [split; [reflexivity|intros i H; exact H]|].
+  destruct (IH (sched_init_edge g e p)) as [H1 H2].
+  assert (Ho : p_oready (sched_init_edge g e p) = p_oready p).
+  { unfold sched_init_edge. destruct (p_want p e) as [[| |]|]; try reflexivity.
+    destruct (all_inputs_ready g p e); [|reflexivity]. destruct (Nat.eqb (depth g (pool g e)) 0); reflexivity. }
+  split; [rewrite H1; exact Ho|]. intros i H. specialize (H2 i H).
+  unfold sched_init_edge in H2. destruct (p_want p e) as [[| |]|] eqn:Ew; try exact H2.
+  destruct (all_inputs_ready g p e); [|exact H2].
+  destruct (Nat.eqb (depth g (pool g e)) 0); psimpl; unfold upd in H2;
+    (destruct (Nat.eqb i e); [discriminate|exact H2]).
+Qed.
+
+Lemma init_origin prio sn :
+  p_oready (s_plan (init_state g cfg prio sn)) = sn_oready sn /\
+  forall i, p_want (s_plan (init_state g cfg prio sn)) i = Some WNothing -> sn_want sn i = Some WNothing.
+Proof.
+  unfold init_state. cbn [s_plan]. unfold schedule_initial_plan.
+  set (p1 := fold_left (fun pp e => sched_init_edge g e pp) (all_edges g) (snap_plan sn)).
+  assert (H : forall l p, p_oready (fold_left (fun pp q => retrieve g prio q pp) l p) = p_oready p /\
+                          p_want (fold_left (fun pp q => retrieve g prio q pp) l p) = p_want p).
+  { induction l as [|q l IH]; intros p; cbn [fold_left]; [split; reflexivity|].
+    destruct (IH (retrieve g prio q p)) as [H1 H2]. rewrite H1, H2, retrieve_oready, retrieve_want. split; reflexivity. }
+  destruct (H (seq 0 (length (g_depths g))) p1) as [H1 H2]. rewrite H1, H2.
+  destruct (sched_init_origin (all_edges g) (snap_plan sn)) as [H3 H4]. fold p1 in H3, H4.
+  split; [exact H3|]. intros i Hi. apply (H4 i Hi).
+Qed.
+
+(* every edge whose outputs are ready was ready at scan time, or finished successfully earlier in the
+   trace (a command, or a phony edge "started" = finished at once), or was not wanted (kWantNothing
+   from the scan, or pruned by restat) and was checked off once its own inputs were ready *)
+Theorem oready_origin prio sn evs s i : wf_snap sn -> run g cfg prio sn evs = Some s ->
+  p_oready (s_plan s) i = true ->
+  sn_oready sn i = true \/ fin_ok evs i \/ sn_want sn i = Some WNothing \/ In (EvPrune i) evs.
+Proof.
+  intros Hws Hr Ho. unfold run in Hr.
+  destruct (accepts_origin evs _ s i (sinv_init prio sn Hws) Hr) as [H1 _].
+  destruct (init_origin prio sn) as [I1 I2].
+  destruct (H1 Ho) as [H|[H|[H|H]]].
+  - left. rewrite I1 in H. exact H.
+  - right. left. exact H.
+  - right. right. left. apply I2. exact H.
+  - right. right. right. exact H.
+Qed.
+
+
 End Inv.
+
+(* ------------------------------------------------------------------ the computable checks are sound *)
+Lemma wf_snap_b_sound g sn :
+  (forall e, n_edges g <= e -> sn_want sn e = None /\ sn_oready sn e = false) ->
+  wf_snap_b g sn = true -> wf_snap g sn.
+Proof.
+  intros Hov H. unfold wf_snap_b in H.
+  apply andb_true_iff in H. destruct H as [H Hc]. apply andb_true_iff in H. destruct H as [H Hw].
+  apply Nat.eqb_eq in Hc, Hw. rewrite forallb_forall in H.
+  assert (Hin : forall e, e < n_edges g -> In e (all_edges g)) by (intros e He; unfold all_edges; apply in_seq; lia).
+  assert (Hlt : forall e, sn_want sn e <> None -> e < n_edges g).
+  { intros e He. destruct (lt_dec e (n_edges g)) as [Hl|Hl]; [exact Hl|]. destruct (Hov e) as [H1 _]; [lia|congruence]. }
+  assert (Hlo : forall e, sn_oready sn e = true -> e < n_edges g).
+  { intros e He. destruct (lt_dec e (n_edges g)) as [Hl|Hl]; [exact Hl|]. destruct (Hov e) as [_ H1]; [lia|congruence]. }
+  constructor.
+  - intros e He. specialize (H e (Hin e (Hlo e He))). apply andb_true_iff in H. destruct H as [_ H].
+    destruct (sn_want sn e) as [w|]; [|reflexivity]. rewrite He in H. cbn in H. discriminate.
+  - intros e He. specialize (H e (Hin e (Hlo e He))). apply andb_true_iff in H. destruct H as [H _].
+    rewrite He in H. exact H.
+  - intros e He. specialize (H e (Hin e (Hlt e ltac:(congruence)))). apply andb_true_iff in H. destruct H as [_ H].
+    rewrite He in H. cbn [want_eqb negb] in H. rewrite andb_false_r in H. cbn [andb] in H. discriminate.
+  - intros e i He Hi Ho. specialize (H e (Hin e (Hlt e He))). apply andb_true_iff in H. destruct H as [_ H].
+    destruct (sn_want sn e) as [w|]; [|congruence].
+    apply andb_true_iff in H. destruct H as [H _]. apply andb_true_iff in H. destruct H as [_ H].
+    rewrite forallb_forall in H. specialize (H i Hi). rewrite Ho in H. cbn [orb] in H.
+    destruct (sn_want sn i); [discriminate|discriminate H].
+  - intros e He. specialize (H e (Hin e (Hlt e ltac:(congruence)))). apply andb_true_iff in H. destruct H as [_ H].
+    rewrite He in H. apply andb_true_iff in H. destruct H as [_ H]. cbn [want_eqb] in H.
+    apply negb_true_iff in H. exact H.
+  - exact Hlt.
+  - exact Hw.
+  - exact Hc.
+Qed.
+
+Lemma wf_cfg_b_sound cfg : wf_cfg_b cfg = true -> 0 < c_k cfg /\ 0 < c_j cfg.
+Proof.
+  unfold wf_cfg_b. intros H. apply andb_true_iff in H. destruct H as [H1 H2].
+  apply Nat.ltb_lt in H1, H2. split; assumption.
+Qed.
+
+(* the completion helper only produces accepted starts of phony edges *)
+Lemma auto_phony_accepts g cfg prio allowed : forall fuel s evs s',
+  auto_phony fuel g cfg prio allowed s = (evs, s') ->
+  accepts g cfg s evs = Some s' /\
+  Forall (fun ev => exists e, ev = EvStart e prio /\ phony g e = true /\ In e allowed) evs.
+Proof.
+  induction fuel as [|fuel IH]; intros s evs s' H; cbn [auto_phony] in H.
+  - injection H as <- <-. split; [reflexivity|constructor].
+  - destruct (filter (fun e => phony g e && memb e (p_ready (s_plan s))) allowed) as [|e l] eqn:Ef.
+    + injection H as <- <-. split; [reflexivity|constructor].
+    + destruct (step g cfg s (EvStart e prio)) as [s1|] eqn:Es.
+      * destruct (auto_phony fuel g cfg prio allowed s1) as [evs1 s2] eqn:Ea. injection H as <- <-.
+        destruct (IH s1 evs1 s2 Ea) as [H1 H2]. split.
+        -- cbn [accepts]. rewrite Es. exact H1.
+        -- constructor; [|exact H2]. exists e. split; [reflexivity|].
+           assert (He : In e (filter (fun e => phony g e && memb e (p_ready (s_plan s))) allowed)) by (rewrite Ef; left; reflexivity).
+           apply filter_In in He. destruct He as [He1 He2]. apply andb_true_iff in He2. tauto.
+      * injection H as <- <-. split; [reflexivity|constructor].
+Qed.
+
+
+(* ------------------------------------------------------------------ the invariant, spelled out *)
+Definition plan_inv (g : graph) (cfg : config) (s : state) : Prop :=
+  let p := s_plan s in
+  let sch := p_ready p ++ p_delayed p ++ s_running s ++ s_failed s in
+  (* ready_, the pools' delayed_ sets, the running commands and the failed commands are disjoint *)
+  NoDup sch /\
+  (* exactly their members are kWantToFinish ... *)
+  (forall e, In e sch <-> p_want p e = Some WToFinish) /\
+  (* ... and all their inputs are ready *)
+  (forall e, In e sch -> all_inputs_ready g p e = true) /\
+  (* an edge that is wanted-to-start or in want_ only for its dependents still waits for an input *)
+  (forall e, p_want p e = Some WToStart \/ p_want p e = Some WNothing -> all_inputs_ready g p e = false) /\
+  (* outputs_ready edges have left want_, and their inputs are ready *)
+  (forall e, p_oready p e = true -> p_want p e = None /\ all_inputs_ready g p e = true) /\
+  (* want_ is closed under not-yet-ready producers *)
+  (forall e i, p_want p e <> None -> In i (ins g e) -> p_oready p i = false -> p_want p i <> None) /\
+  (* the counters are cardinalities; command_edges_ also counts the commands already done *)
+  p_wanted p = count_if (is_wanted (p_want p)) (all_edges g) /\
+  p_commands p + length (s_failed s) =
+    count_if (fun e => is_wanted (p_want p) e && negb (phony g e)) (all_edges g) + s_finished s /\
+  (* pools: current_use counts the queued and the running edges, never exceeds the depth, and an edge
+     is only delayed while the pool is full *)
+  (forall q, 0 < depth g q ->
+     p_use p q = cnt g q (p_ready p) + cnt g q (s_running s) /\ p_use p q <= depth g q /\
+     (delayed_of g q (p_delayed p) <> [] -> p_use p q = depth g q)) /\
+  (forall e, In e (p_delayed p) -> 0 < depth g (pool g e)) /\
+  (* the loop's locals *)
+  s_pending s = length (s_running s) /\
+  p_tokens p = (match c_jobserver cfg with None => 0 | Some _ => length (s_running s) end) /\
+  (forall e, In e (s_running s ++ s_failed s) -> phony g e = false) /\
+  s_fa s <= c_k cfg /\ (s_fa s = c_k cfg -> s_failed s = []) /\
+  (s_failed s = [] <-> s_exit s = 0).
+
+Theorem plan_inv_reachable g cfg rank : wf_graph g rank -> 0 < c_k cfg -> 0 < c_j cfg ->
+  forall s, reachable g cfg s -> s_phase s = PhBuild -> plan_inv g cfg s.
+Proof.
+  intros Hwf Hk Hj s Hr Hph. destruct (reachable_sinv g cfg rank Hwf Hk Hj s Hr) as [HC _]. specialize (HC Hph).
+  destruct HC as [C1 C2 C3 C4 C5 C6 C7 C8 C9 C10 C11 C12 C13 C14].
+  pose proof C1 as [I1 I2 I3 I4 I5 I6 I7 I8 I9 I10 I11 I12 I13 I14 I15 I16].
+  unfold plan_inv. unfold sched in *.
+  split; [exact I1|]. split; [intros e; split; [apply I16|apply I3]|].
+  split; [intros e He; apply (proj2 (I2 e He))|].
+  split.
+  { intros e [He|He]; destruct (all_inputs_ready g (s_plan s) e) eqn:Ea; try reflexivity; exfalso.
+    - destruct (I4 e He Ea) as [H|[]]. rewrite (I16 e H) in He. discriminate.
+    - destruct (I5 e He Ea). }
+  split; [intros e He; split; [apply I7; exact He|apply I8; exact He]|].
+  split; [exact I9|]. split; [exact I14|]. split; [exact C4|].
+  split.
+  { intros q Hq. destruct (I11 q Hq) as [H1 H2]. split; [exact H1|]. split; [exact H2|]. apply I12; [exact I|exact Hq]. }
+  split; [exact I13|]. split; [exact C2|]. split; [exact I15|]. split; [exact C3|].
+  split; [exact C8|]. split; [exact C9|].
+  split; [exact C10|]. intros H. destruct (s_failed s) eqn:E; [reflexivity|]. exfalso. apply C11; [discriminate|exact H].
+Qed.
+
+(* ------------------------------------------------------------------ corollaries used by the property files *)
+Lemma run_reachable g cfg prio sn evs s : wf_snap g sn -> run g cfg prio sn evs = Some s -> reachable g cfg s.
+Proof. intros H1 H2. exists prio, sn, evs. split; assumption. Qed.
+
+Theorem start_after_producers g cfg rank : wf_graph g rank -> 0 < c_k cfg -> 0 < c_j cfg ->
+  forall prio sn evs s e pr s', wf_snap g sn -> run g cfg prio sn evs = Some s ->
+  step g cfg s (EvStart e pr) = Some s' ->
+  forall i, In i (ins g e) ->
+    sn_oready sn i = true \/ fin_ok g evs i \/ sn_want sn i = Some WNothing \/ In (EvPrune i) evs.
+Proof.
+  intros Hwf Hk Hj prio sn evs s e pr s' Hws Hr Hst i Hi.
+  apply (oready_origin g cfg rank Hwf Hk Hj prio sn evs s i Hws Hr).
+  apply (start_inputs_ready g cfg rank Hwf Hk Hj s e pr s' (run_reachable g cfg prio sn evs s Hws Hr) Hst i Hi).
+Qed.
+
+Theorem tokens_at_exit g cfg rank : wf_graph g rank -> 0 < c_k cfg -> 0 < c_j cfg ->
+  forall s code m s', reachable g cfg s -> step g cfg s (EvExit code m) = Some s' ->
+  m <> MInterrupted -> p_tokens (s_plan s') = 0.
+Proof.
+  intros Hwf Hk Hj s code m s' Hr Hst Hm.
+  destruct (exit_reaped g cfg rank Hwf Hk Hj s code m s' Hr Hst Hm) as [Hrun _].
+  rewrite (exit_plan_same g cfg s code m s' Hst).
+  destruct (s_phase s) eqn:Eph.
+  - rewrite (tokens_held g cfg rank Hwf Hk Hj s Hr Eph), Hrun. destruct (c_jobserver cfg); reflexivity.
+  - destruct (exit_interrupted_phase g cfg s code m s' Eph Hst) as [_ ->]. congruence.
+  - unfold step in Hst. cbn [step_res] in Hst. rewrite Eph in Hst. discriminate.
+Qed.
+
+Theorem tokens_after_interrupt g cfg rank : wf_graph g rank -> 0 < c_k cfg -> 0 < c_j cfg ->
+  forall s s', reachable g cfg s -> step g cfg s EvInterrupt = Some s' ->
+  p_tokens (s_plan s') = 0 /\ s_running s' = [].
+Proof.
+  intros Hwf Hk Hj s s' Hr Hst.
+  assert (Hph : s_phase s = PhBuild) by (apply (step_in_build g cfg s _ s' Hst); intros c m; discriminate).
+  pose proof (tokens_held g cfg rank Hwf Hk Hj s Hr Hph) as Ht.
+  unfold step in Hst. cbn [step_res] in Hst. destruct (in_build s && s_waiting s); [|discriminate].
+  injection Hst as <-. cbn [s_plan s_running p_tokens set_tokens]. split; [|reflexivity].
+  rewrite Ht. destruct (c_jobserver cfg); lia.
+Qed.
+
+Theorem counters_at_exit g cfg rank : wf_graph g rank -> 0 < c_k cfg -> 0 < c_j cfg ->
+  forall s code m s', reachable g cfg s -> step g cfg s (EvExit code m) = Some s' ->
+  m <> MInterrupted -> s_started s = s_finished s /\ s_finished s <= s_total s.
+Proof.
+  intros Hwf Hk Hj s code m s' Hr Hst Hm.
+  destruct (exit_reaped g cfg rank Hwf Hk Hj s code m s' Hr Hst Hm) as [Hrun _].
+  destruct (s_phase s) eqn:Eph.
+  - destruct (counters g cfg rank Hwf Hk Hj s Hr Eph) as [H1 [H2 [H3 _]]]. rewrite Hrun in H3. cbn [length] in H3. lia.
+  - destruct (exit_interrupted_phase g cfg s code m s' Eph Hst) as [_ ->]. congruence.
+  - unfold step in Hst. cbn [step_res] in Hst. rewrite Eph in Hst. discriminate.
+Qed.
+
+Lemma run_snoc_split g cfg prio sn evs ev : is_some (run g cfg prio sn (evs ++ [ev])) = true ->
+  exists s s', run g cfg prio sn evs = Some s /\ step g cfg s ev = Some s'.
+Proof.
+  unfold run. rewrite accepts_app. destruct (accepts g cfg (init_state g cfg prio sn) evs) as [s|] eqn:E1; [|discriminate].
+  cbn [accepts]. destruct (step g cfg s ev) as [s'|] eqn:E2; [|discriminate]. intros _. exists s, s'. split; [reflexivity|exact E2].
+Qed.
+
+Lemma is_some_run g cfg prio sn evs : is_some (run g cfg prio sn evs) = true -> exists s, run g cfg prio sn evs = Some s.
+Proof. destruct (run g cfg prio sn evs) as [s|]; [intros _; exists s; reflexivity|discriminate]. Qed.
+
+(* the example of PlanDefs.v satisfies the premises of the theorems *)
+Lemma ex_wf_graph : wf_graph ex_graph ex_rank.
+Proof. apply wf_graph_b_sound. vm_compute. reflexivity. Qed.
+
+Lemma ex_wf_snap : wf_snap ex_graph ex_snap.
+Proof.
+  apply wf_snap_b_sound; [|vm_compute; reflexivity].
+  intros e He. change (n_edges ex_graph) with 4 in He. unfold ex_snap. cbn [sn_want sn_oready].
+  destruct (Nat.ltb_spec e 4); [lia|]. split; reflexivity.
+Qed.
+
+Lemma ex_cfg_k : 0 < c_k ex_cfg. Proof. cbn. lia. Qed.
+Lemma ex_cfg_j : 0 < c_j ex_cfg. Proof. cbn. lia. Qed.
